@@ -4,7 +4,11 @@ using namespace qh;
 namespace hx_queues_nik {
 template <class R, unsigned E, unsigned PR>
 using NQ = xenium::nikolaev_queue<int, xenium::policy::reclaimer<R>, xenium::policy::entries_per_node<E>, xenium::policy::pop_retries<PR>>;
+template <class R, unsigned E, unsigned PR>
+using NQS = xenium::nikolaev_queue<std::string, xenium::policy::reclaimer<R>, xenium::policy::entries_per_node<E>, xenium::policy::pop_retries<PR>>;
 const Config cfgs[] = {
+  {"nik<string>/e2r0/ebr0", make_str<NQS<rc::EBR<0>, 2, 0>>},
+  {"nik<string>/e4r2/hp_s3_0_0", make_str<NQS<rc::HP_S<3, 0, 0>, 4, 2>>},
   {"nik/e2r0/hp_s3_0_0", make_int<NQ<rc::HP_S<3, 0, 0>, 2, 0>>},
   {"nik/e2r2/ebr0", make_int<NQ<rc::EBR<0>, 2, 2>>},
   {"nik/e4r0/nebr1", make_int<NQ<rc::NEBR<1>, 4, 0>>},
